@@ -194,7 +194,7 @@ func replayMain(args []string) {
 		os.Exit(0)
 	}
 	d := logDigest(log)
-	fmt.Printf("violation: %s\n  where: %s\n  %s\n", v.Clause, v.Where, v.Detail)
+	fmt.Printf("violation: %s\n  where: %s\n  tag: %s\n  %s\n", v.Clause, v.Where, v.Tag, v.Detail)
 	if v.Class() != rf.Class {
 		fmt.Printf("DIFFERENT-CLASS recorded=%s now=%s\n", rf.Class, v.Class())
 	} else if d != rf.LogDigest {
